@@ -334,8 +334,11 @@ class Report:
         os.makedirs(os.path.join(CACHE, "calib"), exist_ok=True)
         with open(os.path.join(CACHE, "calib", "%s_%s.json" % (self.prop, self.tier)), "w") as f:
             json.dump([list(k) + [v] for k, v in sorted(self.calib.items())], f)
-        with open(os.path.join(CACHE, "calib", "%s_%s_seed%d_over.json" % (self.prop, self.tier, self.seed)), "w") as f:
-            json.dump([list(k) + [v] for k, v in sorted(self.over.items(), key=str)], f)
+        if os.environ.get("VERIF_CALIB") == "1" and REPO == "/repo":
+            # explicit calibration sweep on the real tree only (never from mutant / scratch-copy runs)
+            os.makedirs(os.path.join(CACHE, "calib_official"), exist_ok=True)
+            with open(os.path.join(CACHE, "calib_official", "%s_%s_seed%d_over.json" % (self.prop, self.tier, self.seed)), "w") as f:
+                json.dump([list(k) + [v] for k, v in sorted(self.over.items(), key=str)], f)
         with open(os.path.join(ROOT, "evidence", self.prop + ".json"), "w") as f:
             json.dump(ev, f, indent=1)
         print("%s %s: %d events, %d cells, states=%d, %d violations, %d known-finding events, %.0fs" %
